@@ -161,6 +161,7 @@ type Sim struct {
 	conds map[uintptr][]*Task
 	clock int64   // accumulated jumps + sleeps, ns
 	bg    []*Task // library goroutines that outlived the run they were started in
+	chans map[uintptr]*chanState
 
 	// per run
 	spec     *RunSpec
@@ -186,7 +187,7 @@ type Sim struct {
 
 func NewSim(exec func(api uint8, input string) (string, string)) *Sim {
 	toSched = make(chan request)
-	return &Sim{Exec: exec, pools: map[uintptr][]poolItem{}, conds: map[uintptr][]*Task{}}
+	return &Sim{Exec: exec, pools: map[uintptr][]poolItem{}, conds: map[uintptr][]*Task{}, chans: map[uintptr]*chanState{}}
 }
 
 const inf = int64(math.MaxInt64 / 4)
@@ -392,7 +393,7 @@ func (s *Sim) describe(what string) string {
 	d := what + ":"
 	for _, t := range s.live {
 		st, begun, done, in := taskCounters(t)
-		state := [...]string{"runnable", "blocked", "condwait", "done", "sleeping"}[t.state]
+		state := [...]string{"runnable", "blocked", "condwait", "done", "sleeping", "chanwait"}[t.state]
 		d += fmt.Sprintf(" task%d{%s steps=%d calls=%d/%d inCall=%v blockedOn=%#x}", t.ID, state, st, done, begun, in, t.blockAddr)
 	}
 	return d
@@ -469,6 +470,11 @@ func (s *Sim) resumeTask(t *Task, budget int64) {
 func (s *Sim) callsDoneTotal() int64 { return readCallsDone() }
 
 func (s *Sim) recordSeg(id int, ran int64) {
+	if ran < 1 {
+		// a task that was resumed only to finish (no yield on the way): it still
+		// occupied a scheduling slot, which a replay must give it again
+		ran = 1
+	}
 	segs := s.res.Trace.Segs
 	if n := len(segs); n > 0 && segs[n-1][0] == int64(id) {
 		segs[n-1][1] += ran
@@ -515,6 +521,18 @@ func (s *Sim) handle(req request) {
 		nt.prio = s.rng.Intn(1 << 20)
 		s.tasks = append(s.tasks, nt)
 		s.live = append(s.live, nt)
+	case ReqSelect:
+		s.chanSelect(t, req.val.([]selCase), req.n == 1)
+	case ReqChanClose:
+		t.pend.n = s.chanClose(req.addr)
+	case ReqChanLen:
+		if cs := s.chans[req.addr]; cs != nil {
+			t.pend.n = int64(len(cs.buf))
+		}
+	case ReqChanBlockForever:
+		t.state = stChanWait
+	case ReqChanMake:
+		delete(s.chans, req.addr)
 	case ReqCondWait:
 		t.state = stCondWait
 		t.blockAddr = req.addr
@@ -912,4 +930,161 @@ func (s *Sim) maybeFireTimer() {
 	if s.rng.Float() < s.spec.Policy.TimerP {
 		s.advanceClock(w - s.Now())
 	}
+}
+
+// ---------------------------------------------------------------- channels
+
+type chanWaiter struct {
+	t     *Task
+	send  bool
+	val   any
+	idx   int        // case index in the waiter's select
+	group *[]uintptr // all channels this waiter is queued on (to dequeue it everywhere)
+}
+
+type chanState struct {
+	buf    []any
+	cap    int
+	closed bool
+	recvq  []*chanWaiter
+	sendq  []*chanWaiter
+}
+
+func (s *Sim) chanOf(addr uintptr, cap int) *chanState {
+	cs := s.chans[addr]
+	if cs == nil {
+		cs = &chanState{cap: cap}
+		s.chans[addr] = cs
+	}
+	return cs
+}
+
+func (s *Sim) dequeueWaiter(w *chanWaiter) {
+	for _, a := range *w.group {
+		cs := s.chans[a]
+		if cs == nil {
+			continue
+		}
+		for i, x := range cs.recvq {
+			if x.t == w.t {
+				cs.recvq = append(cs.recvq[:i:i], cs.recvq[i+1:]...)
+				break
+			}
+		}
+		for i, x := range cs.sendq {
+			if x.t == w.t {
+				cs.sendq = append(cs.sendq[:i:i], cs.sendq[i+1:]...)
+				break
+			}
+		}
+	}
+}
+
+func (s *Sim) wake(w *chanWaiter, n int64, val any) {
+	s.dequeueWaiter(w)
+	w.t.state = stRunnable
+	w.t.pend.n = n
+	w.t.pend.val = val
+}
+
+// ready reports whether case c can proceed now.
+func (s *Sim) chanReady(c selCase) bool {
+	if c.addr == 0 {
+		return false
+	}
+	cs := s.chanOf(c.addr, c.cap)
+	if c.send {
+		return cs.closed || len(cs.recvq) > 0 || len(cs.buf) < cs.cap
+	}
+	return len(cs.buf) > 0 || len(cs.sendq) > 0 || cs.closed
+}
+
+// chanDo performs case c for task t (it must be ready). Returns reply n (without idx) and value.
+func (s *Sim) chanDo(c selCase) (int64, any) {
+	cs := s.chanOf(c.addr, c.cap)
+	if c.send {
+		if cs.closed {
+			return 2, nil
+		}
+		if len(cs.recvq) > 0 {
+			w := cs.recvq[0]
+			s.wake(w, int64(w.idx)<<2|1, c.val)
+			return 1, nil
+		}
+		cs.buf = append(cs.buf, c.val)
+		return 1, nil
+	}
+	if len(cs.buf) > 0 {
+		v := cs.buf[0]
+		cs.buf = cs.buf[1:]
+		if len(cs.sendq) > 0 { // a blocked sender moves into the freed slot
+			w := cs.sendq[0]
+			cs.buf = append(cs.buf, w.val)
+			s.wake(w, int64(w.idx)<<2|1, nil)
+		}
+		return 1, v
+	}
+	if len(cs.sendq) > 0 { // rendezvous
+		w := cs.sendq[0]
+		v := w.val
+		s.wake(w, int64(w.idx)<<2|1, nil)
+		return 1, v
+	}
+	return 0, nil // closed and drained
+}
+
+func (s *Sim) chanSelect(t *Task, cases []selCase, hasDefault bool) {
+	var ready []int
+	for i, c := range cases {
+		if s.chanReady(c) {
+			ready = append(ready, i)
+		}
+	}
+	if len(ready) > 0 {
+		k := ready[0]
+		if len(ready) > 1 {
+			k = ready[int(s.randDraw()%uint64(len(ready)))]
+		}
+		n, v := s.chanDo(cases[k])
+		t.pend.n = int64(k)<<2 | n
+		t.pend.val = v
+		return
+	}
+	if hasDefault {
+		t.pend.n = -1
+		return
+	}
+	// block on every case
+	group := &[]uintptr{}
+	for i, c := range cases {
+		if c.addr == 0 {
+			continue
+		}
+		cs := s.chanOf(c.addr, c.cap)
+		w := &chanWaiter{t: t, send: c.send, val: c.val, idx: i, group: group}
+		*group = append(*group, c.addr)
+		if c.send {
+			cs.sendq = append(cs.sendq, w)
+		} else {
+			cs.recvq = append(cs.recvq, w)
+		}
+	}
+	t.state = stChanWait
+}
+
+func (s *Sim) chanClose(addr uintptr) int64 {
+	cs := s.chanOf(addr, 0)
+	if cs.closed {
+		return 1
+	}
+	cs.closed = true
+	for len(cs.recvq) > 0 {
+		w := cs.recvq[0]
+		s.wake(w, int64(w.idx)<<2, nil) // zero value, ok=false
+	}
+	for len(cs.sendq) > 0 {
+		w := cs.sendq[0]
+		s.wake(w, int64(w.idx)<<2|2, nil) // panics on the sender's side
+	}
+	return 0
 }
